@@ -1,4 +1,5 @@
-"""C12 finding: which of two equally named modules becomes module/m.html and which module/m~2.html changes
+"""C12 finding, FIXED by the toposort repair (/verif/scratch/c12fix_toposort.patch); on a tree with the repair
+demonstrate() returns False (regression demo).  Before the repair: which of two equally named modules becomes module/m.html and which module/m~2.html changes
 from run to run even with PYTHONHASHSEED fixed.  Project.correlate calls toposort_flatten(deplist); toposort
 yields *sets* of module objects (hashed by id()) and sorts each with FortranBase.__lt__, which is where
 `ident` is first requested - so the NameSelector numbers the twins in set-iteration order.
@@ -15,8 +16,8 @@ SRC = {f"src/{nm}{k}.f90": f"module {nm}\n  integer :: x{nm}{k}\nend module {nm}
 def demonstrate(verbose=True):
     if verbose:
         print("eight runs, all with PYTHONHASHSEED=3, same directory")
-    needed, clean = explain(runs(SRC, {}, [3] * 8), ["toposort-id-order"], verbose)
-    return "toposort-id-order" in needed and clean
+    needed, clean = explain(runs(SRC, {}, [3] * 8), [], verbose)
+    return not clean
 
 
 if __name__ == "__main__":
